@@ -64,11 +64,11 @@ func coinParts(c string) (string, string) {
 }
 
 type swapLeg struct {
-	in, out         *Event
-	payer, pool     string
-	payee           string
-	soldC, boughtC  string
-	w               *Walker
+	in, out        *Event
+	payer, pool    string
+	payee          string
+	soldC, boughtC string
+	w              *Walker
 }
 
 func runC02(cx *Ctx, r *Report) {
